@@ -16,11 +16,19 @@ def regen(ctx):
         "runtime/syncutils/counter.go:Counter.Update", "runtime/syncutils/counter.go:Counter.update",
         "runtime/syncutils/counter.go:Counter.WaitIsBelow",
         "runtime/workerpool/group.go:Group.CreatePool", "runtime/workerpool/group.go:Group.CreateGroup",
-        "runtime/workerpool/group.go:Group.WaitChildren"],
+        "runtime/workerpool/group.go:Group.WaitChildren", "runtime/workerpool/group.go:Group.Shutdown",
+        "runtime/workerpool/group.go:Group.shutdown", "runtime/workerpool/group.go:Group.IsShutdown",
+        "runtime/syncutils/counter.go:Counter.Subscribe", "runtime/syncutils/counter.go:Counter.subscribe",
+        "runtime/syncutils/counter.go:Counter.unsubscribe", "runtime/syncutils/counter.go:Counter.notifySubscribers",
+        "runtime/syncutils/counter.go:Counter.Get", "runtime/syncutils/stack.go:Stack.WaitSizeIsAbove",
+        "runtime/workerpool/workerpool.go:type=WorkerPool", "runtime/workerpool/task.go:type=Task",
+        "runtime/workerpool/group.go:type=Group", "runtime/syncutils/counter.go:type=Counter",
+        "runtime/syncutils/stack.go:type=Stack"],
         extra_methods=["IsRunning", "Push", "PopOrWait", "Size", "SignalShutdown", "WaitIsZero", "Increase", "Decrease",
                        "Subscribe", "notifySubscribers", "run", "markDone", "doneCallback", "workerFunc", "Wait",
                        "increasePendingTasksIfRunning", "decreasePendingTasks", "hasWork", "stop", "startIfStopped", "Get",
-                       "Load", "Add", "verifSubmitWindow", "verifPopOrWaitGap", "verifStartWindow"])
+                       "Load", "Add", "verifSubmitWindow", "verifPopOrWaitGap", "verifStartWindow",
+                       "Shutdown", "shutdown", "IsShutdown", "ForEach", "Set", "Delete", "subscribe", "unsubscribe"])
 
 
 SPEC = {
@@ -36,7 +44,7 @@ SPEC = {
                  "C16_old_submit_window_lost_witness", "C16_old_submit_window_hang_witness", "C16_old_signal_lost_witness",
                  "C16_old_start_witness", "C16_old_start_race_witness", "C16_haswork_order_witness", "C16_signal_one_witness",
                  "C16_foreign_waiters_example", "C16_subscriber_stream",
-                 "C16_group_shutdown_wait", "C16_group_flags_monotone", "C16_group_shutdown_window_example", "C16_group_shutdown_orphan_example",
+                 "C16_zero_workers_witness", "C16_group_shutdown_wait", "C16_group_flags_monotone", "C16_group_shutdown_window_example", "C16_group_shutdown_orphan_example",
                  "C16_skeleton_WorkerPool_Start", "C16_skeleton_WorkerPool_startIfStopped", "C16_skeleton_WorkerPool_Submit", 
                  "C16_skeleton_WorkerPool_increasePendingTasksIfRunning", "C16_skeleton_WorkerPool_decreasePendingTasks", "C16_skeleton_WorkerPool_hasWork", 
                  "C16_skeleton_WorkerPool_IsRunning", "C16_skeleton_WorkerPool_Shutdown", "C16_skeleton_WorkerPool_stop", 
@@ -45,7 +53,12 @@ SPEC = {
                  "C16_skeleton_Task_run", "C16_skeleton_Task_markDone", "C16_skeleton_Stack_Push", 
                  "C16_skeleton_Stack_PopOrWait", "C16_skeleton_Stack_Size", "C16_skeleton_Stack_SignalShutdown", 
                  "C16_skeleton_Counter_Update", "C16_skeleton_Counter_update", "C16_skeleton_Counter_WaitIsBelow", 
-                 "C16_skeleton_Group_CreatePool", "C16_skeleton_Group_CreateGroup", "C16_skeleton_Group_WaitChildren"],
+                 "C16_skeleton_Group_CreatePool", "C16_skeleton_Group_CreateGroup", "C16_skeleton_Group_WaitChildren",
+                 "C16_skeleton_Group_Shutdown", "C16_skeleton_Group_shutdown", "C16_skeleton_Group_IsShutdown",
+                 "C16_skeleton_Counter_Subscribe", "C16_skeleton_Counter_subscribe", "C16_skeleton_Counter_unsubscribe",
+                 "C16_skeleton_Counter_notifySubscribers", "C16_skeleton_Counter_Get", "C16_skeleton_Stack_WaitSizeIsAbove",
+                 "C16_skeleton_type_WorkerPool", "C16_skeleton_type_Task", "C16_skeleton_type_Group",
+                 "C16_skeleton_type_Counter", "C16_skeleton_type_Stack"],
     "trusted_base": [
         "hand-written protocol model Hive/Model/WorkerPool.lean of runtime/workerpool (workerpool.go, task.go) and of the parts of runtime/syncutils it uses (Counter.Update/WaitIsZero, Stack.Push/PopOrWait/Size/SignalShutdown)",
         "tie = event traces of the real code judged by the same trace predicate (Hive/Spec/WorkerPool.lean) + forced schedules through the verif hooks whose outcome must equal the model's + independent Go oracle",
